@@ -20,7 +20,10 @@ RULE = ('layers: registered default, main file, d1/{10.yaml, 9.yaml, B.yaml, '
         'value policy.yaml/other.yaml x existence of policy.yaml, '
         'policy.json, other.yaml x fallback switch x explicit constructor '
         'argument (present/missing file).  case = one directory layout; '
-        'non-trivial = name defined in >=2 layers (pick: any row).')
+        'spelling: the same mapping (values of every kind: text, empty, '
+        'list-of-lists, null, booleans, numbers, YAML-sensitive words) as '
+        'JSON, block YAML and flow YAML must decide identically.  '
+        'non-trivial = name defined in >=2 layers (pick/spelling: any row).')
 ASSUMPTIONS = ['real tmpfs directory; files created in reverse lexical order; '
                'raw os.listdir order recorded in evidence',
                'opts._options default restored and asserted after each row']
@@ -72,6 +75,7 @@ def plan(tier, seed):
     for how in HOWS:
         jobs.append({'space': 'pick', 'how': how, 'tier': tier, 'weight': 60})
     jobs.append({'space': 'scope', 'tier': tier, 'weight': 5})
+    jobs.append({'space': 'spelling', 'tier': tier, 'weight': 40})
     return jobs
 
 
@@ -145,6 +149,8 @@ def run(job, seed):
         return run_pick(acc, P, job)
     if job['space'] == 'scope':
         return run_scope(acc, P)
+    if job['space'] == 'spelling':
+        return run_spelling(acc, P)
     listdir_seen = None
     for idx in range(job['lo'], job['hi']):
         if job['space'] == 'one':
@@ -308,6 +314,64 @@ def run_pick(acc, P, job):
             ['policy.yaml']:
         raise core.HarnessError('opts default not restored')
     acc.sample('pick', {'how': how, 'value': value, 'exists': sorted(exists)})
+    return acc.result()
+
+
+SPELL_VALUES = ['role:v', '', '@', '!', 'role:v and not role:w',
+                [['role:v']], [['role:v', 'role:w'], ['role:u']], [],
+                None, True, False, 0, 1, 1.5, 'yes', 'null', '~', '1e3',
+                "'q':%(k)s", 'role:%(k)s']
+
+
+def run_spelling(acc, P):
+    """The same mapping written as JSON and as YAML (main file and a
+    directory file) must give the same decisions, whatever kind of value an
+    entry holds - differential, no expectation about the decision itself."""
+    import yaml
+    probes = [({}, {'roles': []}), ({'k': 'q'}, {'roles': ['v']}),
+              ({'k': 'v'}, {'roles': ['v', 'w']}), ({}, {'roles': ['u']})]
+    for where in ('policy.yaml', 'd1/z.yaml'):
+        for vals in [SPELL_VALUES[i:i + 4]
+                     for i in range(0, len(SPELL_VALUES), 4)] + \
+                [[v] for v in SPELL_VALUES]:
+            doc = {'n%d' % i: v for i, v in enumerate(vals)}
+            res = {}
+            for fmt, text in (('json', json.dumps(doc)),
+                              ('yaml', yaml.safe_dump(doc)),
+                              ('yaml-flow', yaml.safe_dump(
+                                  doc, default_flow_style=True))):
+                w = world.FileWorld()
+                try:
+                    w.mkdir('d1')
+                    w.write(where, text)
+                    conf = world.new_conf(w.root, policy_dirs=['d1'])
+                    enf = P.Enforcer(conf)
+                    out = []
+                    try:
+                        enf.load_rules()
+                    except Exception as e:
+                        out = ['load:' + type(e).__name__]
+                    else:
+                        for n in sorted(doc):
+                            for t, c in probes:
+                                acc.ev()
+                                out.append(world.decide(enf, n, t, dict(c)))
+                    res[fmt] = out
+                finally:
+                    w.destroy()
+            acc.case('spelling', True)
+            for fmt in ('yaml', 'yaml-flow'):
+                if res[fmt] != res['json']:
+                    acc.violation(
+                        'spelling|%s|%s' % (where.split('/')[0], '+'.join(
+                            sorted({type(v).__name__ for v in vals}))),
+                        'the same mapping %r decides differently when '
+                        'spelled as %s (%r) and as JSON (%r)' %
+                        (doc, fmt, res[fmt][:6], res['json'][:6]),
+                        {'doc': doc, 'where': where, 'fmt': fmt},
+                        res['json'], res[fmt], 'spelling')
+            acc.outcome('spelling-%s' % (res['json'][0],))
+    acc.sample('spelling', {'values': [repr(v) for v in SPELL_VALUES]})
     return acc.result()
 
 
